@@ -1,12 +1,12 @@
 """Generator for lane `patho` (C15): pathological input shapes at growing sizes."""
 KINDS = ["nest", "nestclose", "text", "name", "attrs", "attrval", "comment", "unclosedcomment", "lt", "ltslash", "endtags",
-         "svg", "script", "select", "cdata", "doctype", "rand", "manysel", "selfuzz"]
+         "svg", "script", "select", "cdata", "doctype", "rand", "manysel", "selfuzz", "deepsel"]
 
 
 def gen(rng, n, tier, pid):
     sizes = [2000, 20000, 100000] if tier == "quick" else [2000, 20000, 100000, 250000, 1000000]
     out = []
-    linear = {"nest", "nestclose", "text", "endtags", "svg", "select", "rand", "selfuzz"}
+    linear = {"nest", "nestclose", "text", "endtags", "svg", "select", "rand", "selfuzz", "deepsel"}
     for k in KINDS:
         for s in sizes:
             if k == "manysel" and s > 100000:
